@@ -10,8 +10,11 @@ RIDS = ["r1", "r2", "r3"]
 def mkrule(rng, key):
     if rng.random() < 0.2:
         # a scheduled rule: never dispatched for events, only evaluated when the cron service triggers it
-        return {"schedule": rng.choice(["* * * * *", "+1h", "!2030-01-01T00:00:00Z"]), "action": action(rng, 0)}
+        r = {"schedule": rng.choice(["* * * * *", "+1h", "!2030-01-01T00:00:00Z"]), "action": action(rng, 0)}
+        if rng.random() < 0.2: r["id"] = rng.choice(RIDS)
+        return r
     r = {"when": {"pattern": {key: "?x"}}, "action": action(rng, 0)}
+    if rng.random() < 0.15: r["id"] = rng.choice(RIDS)      # an `id` inside the rule body is data, not the id the rule is stored under
     if rng.random() < 0.1:
         r["expires"] = int(time.time()) + rng.choice([100000, -100])
     return r
